@@ -4,8 +4,8 @@ from hpl.ast.expressions import (HplExpression, HplUnaryOperator, HplBinaryOpera
                                  HplFunctionCall, QuantifierType)
 from pyvc.contracts import lemma, spec, unfold, raw_field
 from specs.sem import ev, equiv, conj, dom, bind, atom, forall_env
-from specs.tree import mentions
-from specs.typing import with_dt
+from specs.tree import mentions, wf_q
+from specs.typing import with_dt, wt, BOOL
 from hpl.types import DataType
 
 ANY = DataType.ANY
@@ -204,3 +204,128 @@ def _patm(e, t, a):
 @lemma(auto=('mentions',), patterns=_patm)
 def mentions_ignores_types(e: 'Expr', t: 'DT', a: 'Str') -> 'Bool':
     return mentions(with_dt(e, t), a) == mentions(e, a)
+
+
+def _patw(e, t):
+    return wf_q(with_dt(e, t))
+
+
+@lemma(auto=('wf_q',), patterns=_patw)
+def wfq_ignores_types(e: 'Expr', t: 'DT') -> 'Bool':
+    return wf_q(with_dt(e, t)) == wf_q(e)
+
+
+# ---- one-step structure of the reference queries on operator nodes (each proved by one unfolding, so that
+#      obligations about rebuilt operator nodes need no deep unfolding of the big specs)
+
+def _patmb(e, a):
+    return (mentions(e, a), raw_field(e, 'HplBinaryOperator', 'operand1'))
+
+
+@lemma(auto=('mentions',), patterns=_patmb)
+def mentions_binary(e: 'Expr', a: 'Str') -> 'Bool':
+    return (not isinstance(e, HplBinaryOperator)) \
+        or mentions(e, a) == (mentions(e.operand1, a) or mentions(e.operand2, a))
+
+
+def _patmu(e, a):
+    return (mentions(e, a), raw_field(e, 'HplUnaryOperator', 'operand'))
+
+
+@lemma(auto=('mentions',), patterns=_patmu)
+def mentions_unary(e: 'Expr', a: 'Str') -> 'Bool':
+    return (not isinstance(e, HplUnaryOperator)) or mentions(e, a) == mentions(e.operand, a)
+
+
+def _patwb(e):
+    return (wf_q(e), raw_field(e, 'HplBinaryOperator', 'operand1'))
+
+
+@lemma(auto=('wf_q',), patterns=_patwb)
+def wfq_binary(e: 'Expr') -> 'Bool':
+    return (not isinstance(e, HplBinaryOperator)) or wf_q(e) == (wf_q(e.operand1) and wf_q(e.operand2))
+
+
+def _patwu(e):
+    return (wf_q(e), raw_field(e, 'HplUnaryOperator', 'operand'))
+
+
+@lemma(auto=('wf_q',), patterns=_patwu)
+def wfq_unary(e: 'Expr') -> 'Bool':
+    return (not isinstance(e, HplUnaryOperator)) or wf_q(e) == wf_q(e.operand)
+
+
+def _patwtb(e):
+    return (wt(e), raw_field(e, 'HplBinaryOperator', 'operand1'))
+
+
+@lemma(auto=('wt',), patterns=_patwtb)
+def wt_binary_operands(e: 'Expr') -> 'Bool':
+    """the operands of a well-typed operator node are well-typed (one unfolding of wt, done once here)"""
+    return (not (isinstance(e, HplBinaryOperator) and wt(e))) or (wt(e.operand1) and wt(e.operand2))
+
+
+def _patwtu(e):
+    return (wt(e), raw_field(e, 'HplUnaryOperator', 'operand'))
+
+
+@lemma(auto=('wt',), patterns=_patwtu)
+def wt_unary_operand(e: 'Expr') -> 'Bool':
+    return (not (isinstance(e, HplUnaryOperator) and wt(e))) or wt(e.operand)
+
+
+def _patwtq(e):
+    return (wt(e), raw_field(e, 'HplQuantifier', 'condition'))
+
+
+@lemma(auto=('wt',), patterns=_patwtq)
+def wt_quantifier_parts(e: 'Expr') -> 'Bool':
+    return (not (isinstance(e, HplQuantifier) and wt(e))) \
+        or (wt(e.domain) and wt(e.condition) and e.condition.data_type == BOOL and e.data_type == BOOL)
+
+
+# ---- rebuilt nodes: equivalences that code establishes inline (no callee contract to carry them)
+
+@spec(inline=True)
+def is_disj(e: 'Expr') -> 'Bool':
+    return isinstance(e, HplBinaryOperator) and e.operator.token == 'or'
+
+
+def _patdm(x, y):
+    # x.operand1.operand and y.operand.operand1 must both be spoken of: few (x, y) pairs qualify
+    return (raw_field(raw_field(x, 'HplBinaryOperator', 'operand1'), 'HplUnaryOperator', 'operand'),
+            raw_field(raw_field(y, 'HplUnaryOperator', 'operand'), 'HplBinaryOperator', 'operand1'))
+
+
+@lemma(auto=('ev',), patterns=_patdm)
+def de_morgan_equiv(x: 'Expr', y: 'Expr') -> 'Bool':
+    """~a' & ~b'  ==  ~(a | b)   when a' == a and b' == b"""
+    return (not (is_conj(x) and is_neg(x.operand1) and is_neg(x.operand2) and is_neg(y) and is_disj(y.operand)
+                 and equiv(x.operand1.operand, y.operand.operand1)
+                 and equiv(x.operand2.operand, y.operand.operand2))) \
+        or equiv(x, y)
+
+
+def _patmet(e, d, a):
+    return (mentions(e, a), mentions(d, a))
+
+
+@lemma(auto=('mentions',), patterns=_patmet)
+def mentions_empty_test(e: 'Expr', d: 'Expr', a: 'Str') -> 'Bool':
+    """`len(d) = 0` mentions exactly what d mentions"""
+    return (not is_empty_test(e, d)) or mentions(e, a) == mentions(d, a)
+
+
+@lemma(auto=('wt',), patterns=_patwtb)
+def bool_binary_operands(e: 'Expr') -> 'Bool':
+    """the operands of a well-typed boolean connective are boolean"""
+    return (not (isinstance(e, HplBinaryOperator) and wt(e)
+                 and (e.operator.token == 'and' or e.operator.token == 'or' or e.operator.token == 'implies'
+                      or e.operator.token == 'iff'))) \
+        or (e.operand1.data_type == BOOL and e.operand2.data_type == BOOL and e.data_type == BOOL)
+
+
+@lemma(auto=('wt',), patterns=_patwtu)
+def bool_unary_operand(e: 'Expr') -> 'Bool':
+    return (not (isinstance(e, HplUnaryOperator) and wt(e) and e.operator.token == 'not')) \
+        or (e.operand.data_type == BOOL and e.data_type == BOOL)
